@@ -664,6 +664,19 @@ def install(interp):
         return ew2(f)(ctx, a, b)
 
     reg("isclose", isclose)
+
+    def size(ctx, a, axis=None):
+        if axis is not None:
+            raise Unsupported("np.size with an axis")
+        if isinstance(a, Arr):
+            return a.length
+        if isinstance(a, (list, tuple)):
+            return len(a)
+        if isinstance(a, Arr2):
+            return sum(len(r) for r in a.rows)
+        return 1  # a scalar
+
+    reg("size", size)
     reg("allclose", lambda ctx, a, b, rtol=Fraction(1, 10 ** 5), atol=Fraction(1, 10 ** 8): reduce_all(ctx, isclose(ctx, a, b, rtol, atol)))
     reg("array_equal", lambda ctx, a, b: reduce_all(ctx, ops.arr_binop("==", as_arr(ctx, a), as_arr(ctx, b))))
     reg("isscalar", lambda ctx, a: is_number(a) or isinstance(a, (bool, str)))
